@@ -2,7 +2,9 @@
    opcode table regenerated from exec.h / exec.c (Gen.Opcodes), compare it instruction by instruction with what the
    compile model (Model.CondCompile.compile) emits for the same condition, and run it on the VM model.
    Line:  the `cond` engine's line plus  code=<hex> rel=<off>:<kind><payload>,...
-   Output: <id> code=<same|diff@rule:index:real/model|unsupported:why> real=default:<name>=<0|1|?>,...  -/
+   Output: <id> code=<same|diff@rule:index:real/model|unsupported:why> real=default:<name>=<0|1|?>,...
+           ops=<OP:executions:with-UNDEFINED-operand:with-boundary-operand;...>   (the real code run on the VM model)
+           static=<OP:occurrences;...>                                            (the real code as emitted)  -/
 import YaraModel.Gen.Opcodes
 import Driver.Cond
 namespace Driver.Code
@@ -57,6 +59,7 @@ inductive Item
   | ins (i : Instr)
   | jf (target : Nat) | jt (target : Nat) | jtp (target : Nat)
   | rePush
+  | modChain (undefined : Bool)        -- OBJ_LOAD "tests" … OBJ_VALUE: a module value (fixed by modules/tests/tests.c)
   deriving Repr
 
 def pureOp (name : String) : Option Instr :=
@@ -65,17 +68,17 @@ def pureOp (name : String) : Option Instr :=
   | none => (BinOp.all.find? (fun o => o.name == name)).map .bin
 
 /-- raw instructions of one rule (between INIT_RULE and MATCH_RULE) -> items tagged with their byte offset -/
-partial def items (rels : List (Nat × Rel)) (exts : List String) : List Raw → List (Nat × Item) → Except String (List (Nat × Item))
+partial def items (rels : List (Nat × Rel)) (exts : List String) : List Raw → List (Nat × Item × List String) → Except String (List (Nat × Item × List String))
   | [], acc => .ok acc.reverse
   | r :: rest, acc =>
     let rel : Option Rel := (rels.find? (fun p => p.1 == r.off + 1)).map (·.2)
-    let one (i : Instr) := items rels exts rest ((r.off, .ins i) :: acc)
+    let one (i : Instr) := items rels exts rest ((r.off, .ins i, [r.name]) :: acc)
     match r.name with
     | "OP_PUSH" =>
       match rel with
       | some (.str _ k) => one (.push (encStr k))
       | some (.pool b) => one (.push (encSS (sized b)))
-      | some .re => items rels exts rest ((r.off, .rePush) :: acc)
+      | some .re => items rels exts rest ((r.off, .rePush, [r.name]) :: acc)
       | some .other => .error "push of unknown pointer"
       | none => one (.push (toI64 r.arg))
     | "OP_PUSH_8" | "OP_PUSH_16" | "OP_PUSH_32" => one (.push (r.arg : Int))
@@ -83,6 +86,7 @@ partial def items (rels : List (Nat × Rel)) (exts : List String) : List Raw →
     | "OP_POP" => one .pop
     | "OP_INT_TO_DBL" => one (.intToDbl r.arg)
     | "OP_FILESIZE" => one .filesize
+    | "OP_ENTRYPOINT" => one .undefVal      -- the buffers are neither PE nor ELF files
     | "OP_PUSH_RULE" => one (.pushRule r.arg)
     | "OP_FOUND" => one .found | "OP_FOUND_AT" => one .foundAt | "OP_FOUND_IN" => one .foundIn
     | "OP_COUNT" => one .count | "OP_COUNT_IN" => one .countIn | "OP_OFFSET" => one .offset | "OP_LENGTH" => one .length
@@ -91,9 +95,9 @@ partial def items (rels : List (Nat × Rel)) (exts : List String) : List Raw →
     | "OP_MATCHES" => one .matches
     | "OP_CLEAR_M" => one (.clearM r.arg) | "OP_ADD_M" => one (.addM r.arg) | "OP_INCR_M" => one (.incrM r.arg)
     | "OP_PUSH_M" => one (.pushM r.arg) | "OP_POP_M" => one (.popM r.arg)
-    | "OP_JFALSE" => items rels exts rest ((r.off, .jf ((r.off : Int) + toI32 r.arg).toNat) :: acc)
-    | "OP_JTRUE" => items rels exts rest ((r.off, .jt ((r.off : Int) + toI32 r.arg).toNat) :: acc)
-    | "OP_JTRUE_P" => items rels exts rest ((r.off, .jtp ((r.off : Int) + toI32 r.arg).toNat) :: acc)
+    | "OP_JFALSE" => items rels exts rest ((r.off, .jf ((r.off : Int) + toI32 r.arg).toNat, [r.name]) :: acc)
+    | "OP_JTRUE" => items rels exts rest ((r.off, .jt ((r.off : Int) + toI32 r.arg).toNat, [r.name]) :: acc)
+    | "OP_JTRUE_P" => items rels exts rest ((r.off, .jtp ((r.off : Int) + toI32 r.arg).toNat, [r.name]) :: acc)
     | "OP_ITER_START_INT_RANGE" => one .iterStartRange | "OP_ITER_START_INT_ENUM" => one .iterStartEnum
     | "OP_ITER_START_STRING_SET" => one .iterStartStrSet | "OP_ITER_START_TEXT_STRING_SET" => one .iterStartTextSet
     | "OP_ITER_NEXT" => one .iterNext | "OP_ITER_CONDITION" => one .iterCondition | "OP_ITER_END" => one .iterEnd
@@ -102,11 +106,20 @@ partial def items (rels : List (Nat × Rel)) (exts : List String) : List Raw →
       let name := match rel with
         | some (.pool b) => cstr b
         | _ => "?"
-      let tail := rest.dropWhile (fun x => x.name != "OP_OBJ_VALUE")
+      -- the chain ends at the OBJ_VALUE that balances this OBJ_LOAD (indices / arguments may be module values themselves)
+      let rec split (depth : Nat) (acc : List Raw) : List Raw → List Raw × List Raw
+        | [] => (acc.reverse, [])
+        | x :: xs =>
+          if x.name == "OP_OBJ_LOAD" then split (depth + 1) (x :: acc) xs
+          else if x.name == "OP_OBJ_VALUE" then
+            if depth == 0 then (acc.reverse, x :: xs) else split (depth - 1) (x :: acc) xs
+          else split depth (x :: acc) xs
+      let (chain, tail) := split 0 [] rest
+      let names := r.name :: (chain.map (·.name)) ++ ["OP_OBJ_VALUE"]
       match tail with
       | _ :: rest' =>
-        if exts.contains name then items rels exts rest' ((r.off, .ins (.extVal name)) :: acc)
-        else if name == "tests" then items rels exts rest' ((r.off, .ins .undefVal) :: acc)
+        if exts.contains name then items rels exts rest' ((r.off, .ins (.extVal name), names) :: acc)
+        else if name == "tests" then items rels exts rest' ((r.off, .modChain false, names) :: acc)
         else .error s!"object {name}"
       | [] => .error "OBJ_LOAD without OBJ_VALUE"
     | n =>
@@ -114,20 +127,26 @@ partial def items (rels : List (Nat × Rel)) (exts : List String) : List Raw →
       | some i => one i
       | none => .error s!"opcode {n} is not in the modelled fragment"
 
-def resolve (its : List (Nat × Item)) (endOff : Nat) : Except String (List (Option Instr)) :=
+/-- a resolved real instruction: a model instruction, a regexp push, or a module value -/
+inductive Real
+  | ins (i : Instr) | re | mod
+  deriving Repr
+
+def resolve (its : List (Nat × Item × List String)) (endOff : Nat) : Except String (List Real) :=
   let idxOf (target : Nat) : Option Nat :=
     if target == endOff then some its.length else its.findIdx? (fun p => p.1 == target)
-  let rec go (k : Nat) : List (Nat × Item) → Except String (List (Option Instr))
+  let rec go (k : Nat) : List (Nat × Item × List String) → Except String (List Real)
     | [] => .ok []
-    | (_, it) :: t => do
+    | (_, it, _) :: t => do
       let rest ← go (k + 1) t
-      let j (mk : Int → Instr) (target : Nat) : Except String (List (Option Instr)) :=
+      let j (mk : Int → Instr) (target : Nat) : Except String (List Real) :=
         match idxOf target with
-        | some i => .ok (some (mk ((i : Int) - (k : Int))) :: rest)
+        | some i => .ok (.ins (mk ((i : Int) - (k : Int))) :: rest)
         | none => .error s!"jump into the middle of an instruction ({target})"
       match it with
-      | .ins i => .ok (some i :: rest)
-      | .rePush => .ok (none :: rest)
+      | .ins i => .ok (.ins i :: rest)
+      | .rePush => .ok (.re :: rest)
+      | .modChain _ => .ok (.mod :: rest)
       | .jf t => j .jfalse t
       | .jt t => j .jtrue t
       | .jtp t => j .jtrueP t
@@ -145,18 +164,67 @@ partial def splitRules : List Raw → List (Nat × List Raw × Nat) → Except S
     else if r.name == "OP_IMPORT" || r.name == "OP_HALT" then splitRules rest acc
     else .error s!"{r.name} outside a rule"
 
-def sameInstr (real : Option Instr) (model : Instr) : Bool :=
+/-- module values travel as pseudo-externals whose names start with `m_` (their values are fixed by modules/tests/tests.c) -/
+def isModName (n : String) : Bool := n.startsWith "m_"
+
+def sameInstr (real : Real) (model : Instr) : Bool :=
   match real, model with
-  | none, .push v => ptrTag v == 4          -- a regular expression: contents are C03's concern
-  | some a, b => a == b
+  | .re, .push v => ptrTag v == 4          -- a regular expression: contents are C03's concern
+  | .mod, .undefVal => true
+  | .mod, .extVal n => isModName n
+  | .ins a, b => a == b
   | _, _ => false
 
-def firstDiff (real : List (Option Instr)) (model : List Instr) : Option Nat :=
-  let rec go (k : Nat) : List (Option Instr) → List Instr → Option Nat
+def firstDiff (real : List Real) (model : List Instr) : Option Nat :=
+  let rec go (k : Nat) : List Real → List Instr → Option Nat
     | [], [] => none
     | a :: as, b :: bs => if sameInstr a b then go (k + 1) as bs else some k
     | _, _ => some k
   go 0 real model
+
+/-! ### per-opcode execution histogram of the REAL code run on the VM model -/
+
+def boundaryWord (v : Int) : Bool :=
+  v == 0 || v == 1 || v == -1 || v == C.INT64_MAX || v == C.INT64_MIN || v == encSS []
+
+/-- the words an instruction consumes (or inspects) from the stack -/
+def operandWords (i : Instr) (st : List Int) : List Int :=
+  match i with
+  | .un _ | .found | .count | .addM _ | .popM _ | .jfalse _ | .jtrue _ | .jtrueP _ | .pop => st.take 1
+  | .bin _ | .foundAt | .offset | .length | .matches | .iterStartRange => st.take 2
+  | .foundIn | .countIn | .iterCondition | .iterEnd => st.take 3
+  | .intToDbl k => (st.drop (k - 1)).take 1
+  | .of_ _ | .ofPercent _ => ((popToMarker st []).2).take 1
+  | .ofFoundIn => st.take 2 ++ ((popToMarker (st.drop 2) []).2).take 1
+  | .ofFoundAt => st.take 1 ++ ((popToMarker (st.drop 1) []).2).take 1
+  | .iterStartEnum | .iterStartTextSet | .iterStartStrSet =>
+    match st with
+    | n :: rest => n :: rest.take n.toNat
+    | [] => []
+  | _ => []
+
+/-- run, counting per code position: executions, executions with an UNDEFINED operand, with a boundary operand
+    (for instructions without operands the produced word is classified instead) -/
+partial def traceRun (env : Env) (code : Array Instr) (fuel : Nat) (s : St) (cnt : Array (Nat × Nat × Nat)) :
+    Option St × Array (Nat × Nat × Nat) :=
+  if fuel == 0 then (none, cnt) else
+  match code[s.pc]? with
+  | none => (some s, cnt)
+  | some i =>
+    match step env i s with
+    | some s' =>
+      let ws := match operandWords i s.stack with
+        | [] => s'.stack.take 1
+        | l => l
+      let (n, u, b) := cnt[s.pc]?.getD (0, 0, 0)
+      let cnt := cnt.setIfInBounds s.pc (n + 1, u + (if ws.any isU then 1 else 0), b + (if ws.any boundaryWord then 1 else 0))
+      traceRun env code (fuel - 1) s' cnt
+    | none => (none, cnt)
+
+def addCounts (acc : List (String × Nat × Nat × Nat)) (name : String) (c : Nat × Nat × Nat) : List (String × Nat × Nat × Nat) :=
+  match acc.find? (·.1 == name) with
+  | some _ => acc.map fun e => if e.1 == name then (name, e.2.1 + c.1, e.2.2.1 + c.2.1, e.2.2.2 + c.2.2) else e
+  | none => acc ++ [(name, c)]
 
 def handle (line : String) : String :=
   match Driver.toks line with
@@ -176,13 +244,14 @@ def handle (line : String) : String :=
           | some sz => Driver.Cond.mkBlocks c.buf sz
           | none => [(0, c.buf)]
         let exts := c.ext.map (·.1)
-        let result : Except String (String × List String) := do
+        let result : Except String (String × List String × List (String × Nat × Nat × Nat)) := do
           let raws ← decodeRaw bytes.toArray 0 []
           let rules ← splitRules raws []
           if rules.length != c.rules.length then throw s!"{rules.length} rules in the code, {c.rules.length} expected"
           let mut status := "same"
           let mut verdicts : List Bool := []
           let mut shown : List String := []
+          let mut hist : List (String × Nat × Nat × Nat) := []
           for (ridx, raw, endOff) in rules do
             match c.rules[ridx]? with
             | none => throw "rule index"
@@ -196,16 +265,29 @@ def handle (line : String) : String :=
                 if status == "same" then
                   status := s!"diff@{name}:{k}:{reprStr (real[k]?)}/{reprStr (model[k]?)}".replace " " "_"
               | none => pure ()
-              let runnable := (real.zip model).map fun (a, b) => a.getD b
-              let v := match run env runnable.toArray 2000000 {} with
+              let runnable := (real.zip model).map fun (a, b) => match a with
+                | .ins i => i
+                | _ => b
+              let (fin, cnt) := traceRun env runnable.toArray 2000000 {} (Array.replicate runnable.length (0, 0, 0))
+              for ((_, _, names), c) in its.zip cnt.toList do
+                if c.1 > 0 then
+                  for nm in names do
+                    hist := addCounts hist nm c
+              let v := match fin with
                 | some s => verdictOf s
                 | none => none
               verdicts := verdicts ++ [v.getD false]
               shown := shown ++ [s!"default:{name}={match v with | some b => String.singleton (Driver.bit b) | none => "?"}"]
-          pure (status, shown)
+          pure (status, shown, hist)
+        let static : List (String × Nat × Nat × Nat) := match decodeRaw bytes.toArray 0 [] with
+          | .ok raws => raws.foldl (fun acc r => addCounts acc r.name (1, 0, 0)) []
+          | .error _ => []
+        let showStatic := ";".intercalate (static.map fun e => s!"{e.1}:{e.2.1}")
         match result with
-        | .ok (status, shown) => s!"{id} code={status} real={",".intercalate shown}"
-        | .error e => s!"{id} code=unsupported:{e.replace " " "_"} real=-"
+        | .ok (status, shown, hist) =>
+          let showHist := ";".intercalate (hist.map fun e => s!"{e.1}:{e.2.1}:{e.2.2.1}:{e.2.2.2}")
+          s!"{id} code={status} real={",".intercalate shown} ops={if showHist.isEmpty then "-" else showHist} static={showStatic}"
+        | .error e => s!"{id} code=unsupported:{e.replace " " "_"} real=- ops=- static={if showStatic.isEmpty then "-" else showStatic}"
     | _, _ => s!"{id} NOCODE"
 
 end Driver.Code
